@@ -189,6 +189,7 @@ func (w *Worker) runPath(h *ssa.Function, prefix []int, sh *shared) {
 	w.depth = 0
 	w.cur = nil
 	w.clockLast = nil
+	w.smtReads = nil
 	w.gor = nil
 	var newq [][]int
 	w.dc = &dctx{prefix: prefix, queue: &newq}
@@ -398,10 +399,66 @@ func (w *Worker) extractViolation(label, kind, detail string) *Violation {
 		}
 		terms = append(terms, in.Key...)
 	}
+	// big (SMT-array) inputs: length plus the bytes actually read on this path
+	type bigIn struct {
+		name string
+		ln   *Term
+		idx  []*Term
+		val  []*Term
+	}
+	var bigs []bigIn
+	var bterms []*Term
+	for _, in := range w.inputs {
+		if in.Kind != "bigbytes" {
+			continue
+		}
+		b := bigIn{name: in.Name, ln: in.Len}
+		for _, ix := range w.smtReads[in.Terms[0].name] {
+			b.idx = append(b.idx, ix)
+			b.val = append(b.val, w.ctx.Select(in.Terms[0], ix))
+		}
+		bigs = append(bigs, b)
+		bterms = append(bterms, b.ln)
+		bterms = append(bterms, b.idx...)
+		bterms = append(bterms, b.val...)
+	}
+	if len(bigs) > 0 {
+		bv := w.solver.GetValues(bterms)
+		p := 0
+		for _, b := range bigs {
+			n := int(bv[p].U)
+			p++
+			if n > 1<<21 {
+				n = 1 << 21
+			}
+			buf := make([]byte, n)
+			for i := range b.idx {
+				at := bv[p+i].U
+				if at < uint64(n) {
+					buf[at] = byte(bv[p+len(b.idx)+i].U)
+				}
+			}
+			p += 2 * len(b.idx)
+			v.Model[b.name] = fmt.Sprintf("%x", buf)
+		}
+	}
+	var sterms []*Term
+	for _, in := range w.inputs {
+		if in.Kind == "bigbytes" {
+			continue
+		}
+		sterms = append(sterms, in.Terms...)
+		if in.Len != nil {
+			sterms = append(sterms, in.Len)
+		}
+		sterms = append(sterms, in.Key...)
+	}
+	terms = sterms
 	vals := w.solver.GetValues(terms)
 	k := 0
 	for _, in := range w.inputs {
 		switch in.Kind {
+		case "bigbytes":
 		case "bool":
 			if vals[k].B {
 				v.Model[in.Name] = "1"
